@@ -2,7 +2,7 @@
    Proofs/SettingsValue.v transferred to the reference-heap model (the one Model/C19Run.v evaluates
    on the real library's observations) by the refinement theorem of Proofs/SettingsSim.v. *)
 From Coq Require Import List Arith Bool Lia String.
-From ReqV Require Import Model.Settings Model.LiveSel Model.Handshake Model.DumpCtx Gen.CloneTable Proofs.SettingsHeap Proofs.SettingsValue Proofs.SettingsSim.
+From ReqV Require Import Model.Settings Model.LiveSel Model.Handshake Model.DumpCtx Model.ConnectHdr Gen.CloneTable Proofs.SettingsHeap Proofs.SettingsValue Proofs.SettingsSim.
 Import ListNotations.
 
 Lemma gen_tbl_deep : gen_tbl = deep_tbl.
@@ -205,4 +205,27 @@ Proof. split; reflexivity. Qed.
 Lemma own_dump_governs : forall inherited own, deffective (denable gen_dump inherited own) = own.
 Proof. reflexivity. Qed.
 Lemma early_return_dump_refuted : deffective (denable {| d_always_pushes := false |} [7] 3) = 7.
+Proof. reflexivity. Qed.
+
+(* ---------- ProxyConnectHeader and the CONNECT credentials ---------- *)
+Lemma ch_step_clean x : forall o, ch_stuck o = (0, 0) -> ch_stuck (ch_step good_ch o x) = (0, 0).
+Proof. intros o I. destruct x as [v|a]; simpl; auto. unfold ch_dial. destruct (no_auth a); simpl; auto. Qed.
+
+Lemma ch_run_clean h : forall o, ch_stuck o = (0, 0) -> ch_stuck (fold_left (ch_step good_ch) h o) = (0, 0).
+Proof. induction h as [|x h IH]; intros o I; simpl; auto. apply IH, ch_step_clean, I. Qed.
+
+(* for every history of SetProxyConnectHeader calls and CONNECTs under any credentials: the option never keeps
+   credentials, and the next CONNECT carries exactly the credentials of the proxy URL in force *)
+Lemma connect_credentials_govern h auth :
+  let o := fold_left (ch_step good_ch) h chopt0 in
+  ch_stuck o = (0, 0) /\ snd (ch_dial good_ch o auth) = (if no_auth auth then (0, 0) else auth).
+Proof.
+  intros o. assert (I : ch_stuck o = (0, 0)) by (apply ch_run_clean; reflexivity). split; auto.
+  unfold ch_dial. destruct (no_auth auth); simpl; auto. rewrite I. destruct (ch_given o =? 0); reflexivity.
+Qed.
+
+Lemma connect_write_through_refuted :
+  let t := {| ch_clone_before_auth := false |} in
+  let o := fold_left (ch_step t) [ChSetHeader 1; ChDial (1, 1)] chopt0 in
+  snd (ch_dial t o (0, 0)) = (1, 1).
 Proof. reflexivity. Qed.
